@@ -95,6 +95,47 @@ def conformance(chk, wdir, traces_path, name):
     return json.load(open(vp)), r
 
 
+def drift_check(chk, w, wdir, recs, scheds, tag=''):
+    """Conformance of the recorded traces to Eval.tla (EvalTrace.tla); reports DRIFT lines, never a violation."""
+    # conformance (drift only): every recorded trace must be a behaviour of Eval.tla (EvalTrace.tla).
+    # A trace TLC cannot match is reported as DRIFT (the exhaustive results for Eval.tla no longer speak
+    # for this tree) and taken out; it is never a violation by itself.
+    drift, left, conf_n = [], list(recs), 0
+    for attempt in range(6):
+        cp = w.out('c03_conf_in_%s%d.ndjson' % (tag, attempt))
+        vlib.write_ndjson(cp, left)
+        conf, rc = conformance(chk, wdir, cp, 'conf%s%d' % (tag, attempt))
+        if conf is None:
+            chk.cov['drift'] = -1
+            print('DRIFT property=%s EvalTrace did not complete: %s' % (chk.pid, rc.error or rc.out[-300:]))
+            break
+        if conf['reached'] >= conf['n']:
+            conf_n = len({r_['tr'] for r_ in left})
+            break
+        stuck = left[conf['reached']]
+        drift.append({'tr': stuck['tr'], 'seq': stuck['seq'], 'ev': stuck['ev']})
+        print('DRIFT property=%s trace %s (schedule %s) is not a behaviour of Eval.tla at record seq %s (%s)' % (chk.pid, 
+            stuck['tr'], scheds[stuck['tr'] - 1].get('id'), stuck['seq'], stuck['ev']))
+        left = [r_ for r_ in left if r_['tr'] != stuck['tr']]
+    if chk.cov.get('drift') != -1:
+        chk.cov['drift'] = len(drift)
+        chk.cov['drift_traces'] = drift
+        chk.cov['conformance_accepted_traces'] = conf_n
+    # binding self-test of the conformance direction: a flipped runner flag must be rejected
+    if conf_n:
+        k = next((i for i, r_ in enumerate(left) if r_['ev'] == 'EvalSubmit'), None)
+        if k is not None:
+            cut = [dict(r_) for r_ in left[:k + 200]]
+            cut[k]['runner'] = not cut[k]['runner']
+            cp = w.out('c03_conf_selftest.ndjson')
+            vlib.write_ndjson(cp, cut)
+            conf2, _ = conformance(chk, wdir, cp, 'confself')
+            ok2 = conf2 is not None and conf2['reached'] < conf2['n']
+            chk.cov['conformance_selftest'] = {'corrupted_record': k + 1, 'rejected_at': conf2 and conf2['reached'] + 1, 'ok': ok2}
+            if not ok2:
+                raise Inconclusive('conformance self-test failed: a corrupted trace was accepted by EvalTrace.tla')
+
+
 def run(tier, replay=None):
     chk = vlib.Check('C03', tier)
     chk.assumptions = vlib.TRUSTED + ['Enqueue modelled as one atomic step']
@@ -149,43 +190,7 @@ def run(tier, replay=None):
             chk.violation(ident, 'monitor %s failed at seq %s (e=%s t=%s cause=%s) in schedule %s' % (
                 b['mon'], b['seq'], b.get('e'), b.get('t'), b.get('cause'), sc.get('id')),
                 {'schedule': sc, 'monitor': b, 'trace': by_tr.get(b['tr'], [])})
-        # conformance (drift only): every recorded trace must be a behaviour of Eval.tla (EvalTrace.tla).
-        # A trace TLC cannot match is reported as DRIFT (the exhaustive results for Eval.tla no longer speak
-        # for this tree) and taken out; it is never a violation by itself.
-        drift, left, conf_n = [], list(recs), 0
-        for attempt in range(6):
-            cp = w.out('c03_conf_in_%d.ndjson' % attempt)
-            vlib.write_ndjson(cp, left)
-            conf, rc = conformance(chk, wdir, cp, 'conf%d' % attempt)
-            if conf is None:
-                chk.cov['drift'] = -1
-                print('DRIFT property=C03 EvalTrace did not complete: %s' % (rc.error or rc.out[-300:]))
-                break
-            if conf['reached'] >= conf['n']:
-                conf_n = len({r_['tr'] for r_ in left})
-                break
-            stuck = left[conf['reached']]
-            drift.append({'tr': stuck['tr'], 'seq': stuck['seq'], 'ev': stuck['ev']})
-            print('DRIFT property=C03 trace %s (schedule %s) is not a behaviour of Eval.tla at record seq %s (%s)' % (
-                stuck['tr'], scheds[stuck['tr'] - 1].get('id'), stuck['seq'], stuck['ev']))
-            left = [r_ for r_ in left if r_['tr'] != stuck['tr']]
-        if chk.cov.get('drift') != -1:
-            chk.cov['drift'] = len(drift)
-            chk.cov['drift_traces'] = drift
-            chk.cov['conformance_accepted_traces'] = conf_n
-        # binding self-test of the conformance direction: a flipped runner flag must be rejected
-        if conf_n:
-            k = next((i for i, r_ in enumerate(left) if r_['ev'] == 'EvalSubmit'), None)
-            if k is not None:
-                cut = [dict(r_) for r_ in left[:k + 200]]
-                cut[k]['runner'] = not cut[k]['runner']
-                cp = w.out('c03_conf_selftest.ndjson')
-                vlib.write_ndjson(cp, cut)
-                conf2, _ = conformance(chk, wdir, cp, 'confself')
-                ok2 = conf2 is not None and conf2['reached'] < conf2['n']
-                chk.cov['conformance_selftest'] = {'corrupted_record': k + 1, 'rejected_at': conf2 and conf2['reached'] + 1, 'ok': ok2}
-                if not ok2:
-                    raise Inconclusive('conformance self-test failed: a corrupted trace was accepted by EvalTrace.tla')
+        drift_check(chk, w, wdir, recs, scheds)
         # binding self-test: dropping the OK of a dependency must trip SubmitReady
         st = selftest(chk, wdir, recs)
         chk.cov['binding_selftest'] = st
